@@ -25,18 +25,24 @@ PROPS["C14"] = dict(
 )
 
 PROPS["C01"] = dict(
-    units=[("verus", "scanner"), ("kani", "prec"), ("verus", "driver"), ("verus", "parser")],
+    units=[("verus", "scanner"), ("kani", "prec"), ("verus", "driver"), ("verus", "parser"), ("verus", "exprparse")],
     explanation="Every Scanner method is verified panic-free (all indexing and slicing in bounds, no overflow), terminating "
                 "(decreases on the remaining input) and progressing (next_token strictly advances and returns Eof at end of input) "
                 "for every input text; the Pratt loop's termination invariant (a token that can continue an expression has an infix parser) "
                 "holds for every token type. main.rs: parse_program returns Some only for a program without diagnostics, and in run_buf/run_prompt "
                 "VM::run is reachable only with bytecode from a compiler whose compile() returned Ok on such a program. Parser: error recovery (synchronize) terminates "
                 "for every token stream; push_error/expect_peek record exactly one diagnostic; every statement parser returns Ok, and Statement::Invalid only together with a "
-                "new diagnostic - so the compiler's panic on Statement::Invalid is unreachable for executed programs.",
-    not_covered=["panic-freedom and termination of the ~45 expression-parsing functions, parse_block_statement's recursion and compile_* (recursion depth, radix literal slices)"],
+                "new diagnostic - so the compiler's panic on Statement::Invalid is unreachable for executed programs. Expression parser (exprparse unit, round 2): all 40 functions of parser/rules.rs "
+                "(literals, prefix/infix/assignment/range/dot/index/call/grouped/if/match/function/array/map/dollar parsers, parse_block_statement, parse_function_params, convert_to_pattern_list) and parse_expression's Pratt loop are verified on their real bodies: "
+                "no index, slice or unwrap can fail (the radix slices under the scanner's token invariant; `arms[arms.len() - 1]` only when a default arm was seen), diagnostics only grow, and every loop terminates under the measure "
+                "3 x input left + 2 x [look-ahead not Eof] + [current not Eof] (Eof is not assumed absorbing: a NUL in the text yields Eof in mid-input).",
+    not_covered=["termination of the recursive descent as a whole: the recursive entries parse_expression / parse_statement are seen by their callers through one assumed contract (diagnostics grow, the measure does not increase), so each function's own loops terminate but the recursion depth (bounded by the tokens consumed) is stated, not proved",
+                 "that each function value stored in PARSE_RULES is one of the verified prefix / infix parsers (the indirect calls go through dispatch shims carrying their common contract)",
+                 "compile_* (no panics on well-formed ASTs: the bounded stand-in only)"],
     assumptions=["Unicode classification (is_alphabetic/is_alphanumeric) is uninterpreted except: NUL is in no class, alphabetic implies alphanumeric",
                  "fewer than 2^64 - 2 characters/tokens are scanned (read_position does not overflow)",
-                 "string building shims (collect, to_string, format!) return some String"],
+                 "string building shims (collect, to_string, format!) return some String",
+                 "table facts used by the Pratt loop's termination (prec unit, Kani, every token): a token whose level is above Lowest has an infix parser; right-associative tokens are above Lowest"],
     trusted=COMMON_TRUST,
 )
 
